@@ -116,7 +116,7 @@ def json_short(x):
     return json.dumps(x)[:400]
 
 
-C_OPS = 'w~&|^n=<>x+-*s'
+C_OPS = 'w~&|^n=<>x+-*sc'
 
 
 def c_expected(net, vals):
@@ -149,6 +149,11 @@ def c_expected(net, vals):
         return (a * b) & m
     if op == 's':
         return sum(((a >> i) & 1) << k for k, i in enumerate(net.op_param)) & m
+    if op == 'c':
+        v = 0
+        for arg, x in zip(net.args, vals):       # the first argument is the most significant
+            v = (v << len(arg)) | x
+        return v & m
     raise ValueError(op)
 
 
@@ -238,7 +243,7 @@ def main(ctx):
                 dflt = 0   # the sanctioned difference: default_value is not applied to memories
             iter_seed = None if k % 4 == 0 else rng.randrange(1 << 30)
             ok = c01.one_case(ctx, d, steps, regmap, memmap, dflt, iter_seed,
-                              '%s#%d' % (simcls.__name__, k), simcls=simcls, check_tie=False)
+                              '%s#%d' % (simcls.__name__, k), simcls=simcls, check_tie=(simcls is pyrtl.FastSimulation))
             desc = d.describe()
             agree[simcls.__name__] += ok
             total[simcls.__name__] += 1
@@ -255,6 +260,10 @@ def main(ctx):
                 break
     select_tie(ctx)
     climb_tie(ctx)
+    ctx.oblige('tie:FastSimulation=FastSim.step model (Lean; about which fastsim_run_eq_spec speaks)', getattr(ctx, 'tie_mismatch', 0) == 0,
+               '%d/%d runs disagree' % (getattr(ctx, 'tie_mismatch', 0), getattr(ctx, 'tie_cases', 0)))
+    if getattr(ctx, 'tie_mismatch', 0) and not ctx.violations:
+        ctx.extra['tie_only_examples'] = getattr(ctx, 'tie_only', [])[:2]
     # memory histories whose addresses collide in their low bits (hash buckets of the C backend), rewriting older entries
     from checks import c08
     for k in range(ctx.n(12, 200)):
